@@ -16,7 +16,11 @@ DRIVER = 'drv_C18'
 PROOF_MODULES = ['OsloProofs.Props.C18']
 LEVEL = 'proof'
 RULE = ('(value, spec) pairs: 17 operators x operand pairs (integers, decimals, negatives, equal / adjacent values, '
-        'different renderings of the same number; strings over letters, digits and punctuation, equal / prefix / '
+        'every spelling of the same number on either side: trailing zeros, leading zeros, "+", leading dot ".5", trailing '
+        'dot "5.", exponent notation "1e3" / "2.5E-1", blanks around the value; the oracle judges a numeric operand when '
+        'it is a decimal numeral in positional or scientific notation with at most 15 significant digits - meaning: the '
+        'rational it denotes - and does not judge digit-group underscores, inf / nan, non-ASCII digits and other Unicode '
+        'blanks, on which the documentation is silent and which stay in the model/implementation correspondence; strings over letters, digits and punctuation, equal / prefix / '
         'adjacent) x 1..5 alternatives or list items x four bracket combinations with values on, inside and outside '
         'both ends x leading / separating / trailing whitespace, plus a malformed stream (token soup, glued operators, '
         'non-pyparsing whitespace), plus in-process call sequences: families of specs with the same characters once '
@@ -44,6 +48,8 @@ ASSUMPTIONS = [
     'pyparsing: Literal/Regex skip the element whitespace then match at that position; MatchFirst takes the first '
     'alternative; OneOrMore is greedy; no backtracking (checked by the correspondence on the parse tree)',
     'the grammar has the shape the hand parser was written for (generate() fails otherwise)',
+    'match() is a function of its two arguments: the model is stateless; checked on every run by in-process call '
+    'sequences (same-characters spec families in both orders, shuffled re-evaluation) in the correspondence and the search',
 ]
 
 GEN_PATH = os.path.join(common.LEAN, 'OsloModel', 'Generated', 'C18.lean')
@@ -300,17 +306,29 @@ def render_num(q, rng, plain=False):
     else:
         text = digits
     if not plain:
+        # every spelling float() reads as the same number: trailing zeros, trailing dot, leading dot,
+        # leading zeros, explicit plus sign, exponent notation
         r = rng.random()
-        if r < 0.10 and len(text.replace('.', '')) < 14:
+        if r < 0.08 and len(text.replace('.', '')) < 14:
             text = text + ('0' if scale else '.0')
-        elif r < 0.14 and not scale:
+        elif r < 0.13 and not scale:
             text = text + '.'
-        elif r < 0.18 and text.startswith('0.'):
+        elif r < 0.19 and text.startswith('0.'):
             text = text[1:]
-        elif r < 0.22 and len(text.replace('.', '')) < 14:
+        elif r < 0.23 and len(text.replace('.', '')) < 14:
             text = '0' + text
-        elif r < 0.26 and not neg:
+        elif r < 0.27 and not neg:
             text = '+' + text
+        elif r < 0.39:
+            k = rng.choice([-3, -2, -1, 0, 1, 2, 3, 5])
+            m = render_num(a / Fraction(10) ** k, rng, plain=True)
+            r2 = rng.random()
+            if r2 < 0.25 and m.startswith('0.'):
+                m = m[1:]
+            elif r2 < 0.4 and '.' not in m:
+                m = m + '.'
+            esign = '-' if k < 0 else rng.choice(['', '', '+'])
+            text = m + rng.choice('eE') + esign + ('0' if rng.random() < 0.1 else '') + str(abs(k))
     return ('-' if neg else '') + text
 
 
@@ -413,6 +431,8 @@ def gen_case(rng):
         op = rng.choice(NUM_OPS)
         a, b = num_pair(rng)
         va, vb = render_num(a, rng), render_num(b, rng)
+        if rng.random() < 0.06:
+            va = rng.choice(['', ' ', '\t']) + va + rng.choice(['', ' ', '\n', ' \t'])
         r = rng.random()
         if r < 0.04:
             va = odd_number_text(rng)
@@ -709,6 +729,17 @@ def fresh_run(calls):
 
 
 _ALONE = {}
+_BUDGET = {'until': None}
+
+
+def start_budget(seconds):
+    import time
+    _BUDGET['until'] = time.time() + seconds
+
+
+def time_left():
+    import time
+    return _BUDGET['until'] is None or time.time() < _BUDGET['until']
 
 
 def alone(v, s):
@@ -748,10 +779,10 @@ def shrink_sequence(calls):
     def squash(spec):
         return ''.join(spec.split())
     same = [c for c in pre if squash(c[1]) == squash(last[1])]
-    if same and len(same) < len(pre) and sequence_fails(same + [last]):
+    if same and len(same) < len(pre) and time_left() and sequence_fails(same + [last]):
         pre = same
     if len(pre) >= 2:
-        pre = common.shrink_list(pre, lambda sub: sequence_fails(list(sub) + [last]),
+        pre = common.shrink_list(pre, lambda sub: time_left() and sequence_fails(list(sub) + [last]),
                                  max_steps=60 if len(pre) < 2000 else 25)
     return pre + [last]
 
@@ -773,19 +804,22 @@ def history_failure(prefix, got, log):
                        {'kind': 'operator ' + (s2.split()[0] if s2.split() and s2.split()[0] in DOC_OPS
                                                else 'no-operator'),
                         'what': oracle_fresh(v2, s2), 'tree': impl_tree(s2)})
-    for cand in (prefix, log):
+    squashed = ''.join(s.split())
+    guess = [c for c in dict.fromkeys(log[:-1]) if ''.join(c[1].split()) == squashed] + [(v, s)]
+    for cand in (prefix, guess, log):
+        if not time_left():
+            break
         if cand and tuple(cand[-1]) == (v, s) and sequence_fails(cand):
             seq = shrink_sequence(cand)
             outs = fresh_run(seq)
             return Failure({'calls': [list(c) for c in seq]},
                            {'kind': 'result depends on call history: ' + opname,
-                            'what': 'after %d earlier call(s) %s match(%r, %r) is %s; the same call on its own is %s'
-                                    ' and the documented meaning is %s' % (
-                                        len(seq) - 1, ', '.join('match(%r, %r)' % c for c in seq[:-1][:6]), v, s,
-                                        show(outs[-1]), show(alone(v, s)), documented_meaning(v, s))})
+                            'what': 'after %d earlier call(s) %s: %s; the same call on its own is %s' % (
+                                        len(seq) - 1, ', '.join('match(%r, %r)' % c for c in seq[:-1][:6]),
+                                        describe(v, s, outs[-1], documented_meaning(v, s)), show(alone(v, s)))})
     tail = [list(c) for c in log[-200:]]
     return Failure({'calls': tail},
-                   {'kind': 'result depends on call history (not reproduced in a fresh interpreter): ' + opname,
+                   {'kind': 'result depends on call history (not confirmed in a fresh interpreter within the time budget): ' + opname,
                     'what': 'in the checking process match(%r, %r) was %s, expected %s; the last 200 calls are kept'
                             % (v, s, show(got), show(want))})
 
@@ -826,7 +860,8 @@ def canon_float(text):
 def lit_cases(rng, n):
     out = ["'a'", '"a"', '5', '-5', '+5', '5.', '.5', '05', '00', '007.5', '1e3', '1_0', '0x1', '[]', '[ ]', '[,]',
            "['a']", "['a',]", "['a',,]", "[ 'a' , \"b\" ]", '[1, 2.5, -3]', "['a' 'b']", "['a\\n']", "[['a']]",
-           "('a',)", '{"a"}', 'abc', '', ' ', '[', ']', "['a'", "'a", "'a'x", '5 ', ' 5', '\t[1]\t', '5\n', '\n5',
+           "('a',)", '{"a"}', 'abc', '', ' ', '[', ']', "['a'", "'a", "'a'x", '5 ', ' 5', '1e3', '1E-2', '2.5e+1', '.5e1', '5.e1', '01e2', '1e', '1e+', '[1e2, 2.5E-1]',
+           '-1e3', '+.5E0', '1e0_1', '\t[1]\t', '5\n', '\n5',
            "[\n'a']", '- 1', '--1', '1-2', "b'a'", "u'a'", "'''a'''", "''", '""', "''''", '[1,2,]', '[1 2]', 'True',
            'None', "['é']", "['\x7f']", "['a\tb']", '[1j]', '[.]', '[-.5]', '[+.5, 5.]']
     for _ in range(n):
@@ -962,14 +997,32 @@ DOC_NUM = {'=': lambda a, b: a >= b, '!=': lambda a, b: a != b, '<=': lambda a, 
 DOC_STR = {'s!=': lambda a, b: a != b, 's<': lambda a, b: a < b, 's<=': lambda a, b: a <= b,
            's==': lambda a, b: a == b, 's>': lambda a, b: a > b, 's>=': lambda a, b: a >= b}
 DOC_OPS = list(DOC_NUM) + list(DOC_STR) + ['<all-in>', '<in>', '<or>', '<range-in>']
-DEC_RE = re.compile(r'-?(0|[1-9][0-9]*)(\.[0-9]+)?\Z')
+# The documentation calls the operands of the numeric operators "Float/integer value"s.  The oracle reads that as:
+# a decimal numeral in positional or scientific notation - optional sign, digits with an optional fraction
+# ("12", "12.5", "5.", ".5", leading zeros allowed: the project's own tests use "01"), optional exponent
+# ("1e3", "2.5E-1") - optionally surrounded (value side only; an operand cannot contain any) by the blanks
+# the grammar itself treats as insignificant (space, tab, CR, LF).  Its meaning is the rational it denotes.
+# Not judged (the documentation is silent; they stay in the model/implementation correspondence):
+# digit-group underscores ("1_000"), inf / infinity / nan, non-ASCII digits, other Unicode blanks.
+NUMERAL_RE = re.compile(r'[+-]?(?:[0-9]+(?:\.[0-9]*)?|\.[0-9]+)(?:[eE][+-]?[0-9]+)?\Z')
+# what a Python literal of the same number may look like (value of <range-in>, read by ast.literal_eval):
+# the same, but an integer part with superfluous leading zeros is not a Python literal
+PYLIT_RE = re.compile(r'[+-]?(?:(?:0|[1-9][0-9]*)(?:\.[0-9]*)?|\.[0-9]+)(?:[eE][+-]?[0-9]+)?\Z')
 LIST_RE = re.compile(r"""\s*\[\s*(?:(?:'[^'\\\n]*'|"[^"\\\n]*")\s*(?:,\s*(?:'[^'\\\n]*'|"[^"\\\n]*")\s*)*)?\]\s*\Z""")
 ITEM_RE = re.compile(r"""'([^'\\\n]*)'|"([^"\\\n]*)\"""")
 
 
-def doc_number(text):
-    """A canonical decimal literal with at most 15 significant digits -> Fraction, else None."""
-    if not DEC_RE.match(text) or len(text.replace('-', '').replace('.', '').lstrip('0')) > 15:
+def doc_number(text, blanks=False, pylit=False):
+    """The rational a numeral denotes (see NUMERAL_RE), or None when the text is outside the class the
+    oracle judges.  At most 15 significant digits and a small exponent, so that comparing the doubles is
+    comparing the rationals."""
+    if blanks:
+        text = text.strip(' \t' if pylit else ' \t\r\n')
+    if not (PYLIT_RE if pylit else NUMERAL_RE).match(text):
+        return None
+    mant, _, exp = text.lower().partition('e')
+    digits = mant.lstrip('+-').replace('.', '').lstrip('0')
+    if len(digits) > 15 or (exp and abs(int(exp)) > 40):
         return None
     return Fraction(text)
 
@@ -990,7 +1043,7 @@ def documented_meaning(value, spec):
     if op in DOC_NUM:
         if len(args) != 1 or is_op(args[0]):
             return None
-        a, b = doc_number(value), doc_number(args[0])
+        a, b = doc_number(value, blanks=True), doc_number(args[0])
         return None if a is None or b is None else DOC_NUM[op](a, b)
     if op in DOC_STR:
         if len(args) != 1 or is_op(args[0]):
@@ -1012,7 +1065,7 @@ def documented_meaning(value, spec):
     if op == '<range-in>':
         if len(args) != 4 or args[0] not in '[(' or args[3] not in '])' or len(args[0]) != 1 or len(args[3]) != 1:
             return None
-        q, lo, hi = doc_number(value), doc_number(args[1]), doc_number(args[2])
+        q, lo, hi = doc_number(value, blanks=True, pylit=True), doc_number(args[1]), doc_number(args[2])
         if q is None or lo is None or hi is None or lo > hi:
             return None
         return (q >= lo if args[0] == '[' else q > lo) and (q <= hi if args[3] == ']' else q < hi)
@@ -1021,16 +1074,29 @@ def documented_meaning(value, spec):
     return None
 
 
+def describe(value, spec, got, want):
+    """One line: what the call did and what its arguments mean."""
+    toks = spec.split()
+    meaning = 'the documented meaning is %s' % want
+    if toks and toks[0] in DOC_NUM and len(toks) == 2:
+        a, b = doc_number(value, blanks=True), doc_number(toks[1])
+        meaning = 'the documented meaning is the numeric comparison %s %s %s = %s' % (
+            a, '>=' if toks[0] == '=' else toks[0], b, want)
+    elif toks and toks[0] == '<range-in>' and len(toks) == 5:
+        meaning = 'the documented meaning is the interval test %s in %s%s, %s%s = %s' % (
+            doc_number(value, blanks=True, pylit=True), toks[1], doc_number(toks[2]), doc_number(toks[3]), toks[4], want)
+    if got in ('ok:0', 'ok:1'):
+        return 'match(%r, %r) is %s; %s' % (value, spec, show(got), meaning)
+    return 'match(%r, %r) raised %s where %s' % (value, spec, got, meaning)
+
+
 def oracle(value, spec):
     """Description of how the implementation departs from the documented meaning, or None."""
     want = documented_meaning(value, spec)
     if want is None:
         return None
     got = impl_match(value, spec)
-    if got != 'ok:%d' % want:
-        return 'match(%r, %r) is %s, the documented meaning is %s' % (
-            value, spec, got.replace('ok:1', 'True').replace('ok:0', 'False'), want)
-    return None
+    return describe(value, spec, got, want) if got != 'ok:%d' % want else None
 
 
 def oracle_fresh(value, spec):
@@ -1039,9 +1105,14 @@ def oracle_fresh(value, spec):
     if want is None:
         return None
     got = alone(value, spec)
-    if got != 'ok:%d' % want:
-        return 'match(%r, %r) is %s, the documented meaning is %s' % (value, spec, show(got), want)
-    return None
+    return describe(value, spec, got, want) if got != 'ok:%d' % want else None
+
+
+def plain_numeral(text):
+    q = doc_number(text, blanks=True)
+    if q is None:
+        return text
+    return render_num(q, None, plain=True)
 
 
 def shrink_case(value, spec):
@@ -1049,10 +1120,25 @@ def shrink_case(value, spec):
     toks = spec.split()
     if len(toks) > 2:
         def still(sub):
-            return oracle_fresh(value, ' '.join(sub)) is not None
+            return time_left() and oracle_fresh(value, ' '.join(sub)) is not None
         toks = common.shrink_list(toks, still, max_steps=40)
     cand = ' '.join(toks)
-    return (value, cand) if oracle_fresh(value, cand) else (value, spec)
+    if not (time_left() and oracle_fresh(value, cand)):
+        return value, spec
+    # numeric operands: write each side plainly when the failure survives, so that the spelling that
+    # matters is the one left in the replay
+    if toks[0] in DOC_NUM or toks[0] == '<range-in>':
+        for i in [None] + list(range(1, len(toks))):
+            if not time_left():
+                break
+            v2, t2 = value, list(toks)
+            if i is None:
+                v2 = plain_numeral(value)
+            else:
+                t2[i] = plain_numeral(toks[i])
+            if (v2, t2) != (value, toks) and oracle_fresh(v2, ' '.join(t2)):
+                value, toks = v2, t2
+    return value, ' '.join(toks)
 
 
 def search(ctx, seeds, full=False):
@@ -1066,6 +1152,8 @@ def search(ctx, seeds, full=False):
         got = impl_match(v, s)
         first.setdefault((v, s), got)
         return got
+
+    start_budget(60 if ctx.quick else 300)     # wall clock for confirming / shrinking in fresh interpreters
 
     def report(prefix, got):
         """Confirm / shrink (fresh interpreters - expensive) once per operator only."""
